@@ -734,6 +734,29 @@ def pol_frames(ctx):
     Ec = V(tuple(sym.conj(z) for z in E))
     n2 = dot(E, Ec)
     want = A('state.Ex') * A('state.Ex') + A('state.Ey') * A('state.Ey')
+    # the field is the state written in the launch frame the function built:
+    # E = Ex exp(i phase_x) s + Ey exp(i phase_y) p
+    law_ok = False
+    s_l, p_l = ev.env.get('s'), ev.env.get('p')
+    if isinstance(s_l, V) and isinstance(p_l, V):
+        try:
+            ev_l = VecEv(sym=sym, attr=dict(ev.attr))
+            ev_l.env.update({'s': s_l, 'p': p_l})
+            E_l = ev_l.evx(ast.parse(
+                'state.Ex * np.exp(1j * state.phase_x) * s + '
+                'state.Ey * np.exp(1j * state.phase_y) * p',
+                mode='eval').body)
+            law_ok = isinstance(E_l, V) and veq(E, E_l, sym)
+        except Inconclusive:
+            law_ok = False
+    if law_ok:
+        res.ok('launch field: E = Ex e^(i phase_x) s + Ey e^(i phase_y) p')
+    else:
+        res.fail(ctx.finding('POL-FRAMES', g, g.node,
+                             'the launch field is not Ex exp(i phase_x) s + '
+                             'Ey exp(i phase_y) p in the launch frame: the '
+                             'state requested is not the state launched',
+                             construct='launch field law'))
     if sym.is_zero(dot(E, k)) and sym.eq(n2, want):
         res.ok('launch field: E . k = 0 and |E|^2 = Ex^2 + Ey^2')
     else:
